@@ -110,6 +110,8 @@ func VerifC22_any() {
 		case 3:
 			var m Message
 			err = m.Decode(b)
+			// whatever the outcome, the body buffer that was allocated is bounded (observable natively)
+			verifrt.Assert(len(m.Body) <= 1<<20, "C22.any.bodyalloc")
 			if err == nil {
 				verifrt.Assert(m.Bytes >= 0 && m.Bytes <= total && len(m.Body) == m.Bytes, "C22.any.msglen")
 				verifrt.Reach("C22.any.msgok")
